@@ -297,7 +297,12 @@ open Pycel Pycel.Ops
     signs, N / D with N = scaledNum F x = |num x| · 100^p · 10^d and D = den x is |x| · 100^p in units of 10^-d. -/
 
 /-- the rounded count r of units 10^-d is the nearest integer to N / D:  N/D − 1/2 < r ≤ N/D + 1/2, i.e.
-    |x|·100^p is rounded to d decimals to nearest, and an exact tie goes up in magnitude (away from zero). -/
+    |x|·100^p is rounded to d decimals to nearest, and an exact tie goes up in magnitude (away from zero).
+    The model is a pure function of (x, format): the statement has no proviso about the calling thread or about any
+    ambient state of the caller (Python's `decimal.getcontext()` is per thread and caller-settable), so the
+    implementation may depend on neither; the correspondence run therefore repeats the tie-rich TEXT cases and a
+    slice of every other function on a brand-new `threading.Thread` and under a hostile ambient decimal context
+    (6 digits, half-even, all signals trapped) and compares with this same model. -/
 theorem C20_text_round (F : Fmt) (x : Rat) :
     2 * x.den * rounded F x ≤ 2 * scaledNum F x + x.den ∧
     2 * scaledNum F x + x.den < 2 * x.den * (rounded F x + 1) :=
